@@ -475,6 +475,20 @@ func genCase(t *rapid.T) aCase {
 	if rapid.IntRange(0, 7).Draw(t, "other.notation") == 0 {
 		return aCase{Role: role, S: genOtherNotation(t)}
 	}
+	if rapid.IntRange(0, 15).Draw(t, "text") == 0 {
+		// text that is no address at all, of every length and script (host names, labels, what a user types into the wrong field),
+		// alone or with a port or an address attached
+		s := gen.Name(t, "text")
+		switch rapid.IntRange(0, 3).Draw(t, "text.with") {
+		case 1:
+			s += ":60000"
+		case 2:
+			s += " 192.168.1.100"
+		case 3:
+			s = "192.168.1.100 " + s
+		}
+		return aCase{Role: role, S: s}
+	}
 	s := genIP(t)
 	switch rapid.IntRange(0, 3).Draw(t, "port") {
 	case 0:
